@@ -35,6 +35,7 @@ type sField struct {
 	Always bool   // written whatever the checker says (the model counts it as selected by every checker)
 	Via  string // how the strategy persists the field: "" TypedBucket-level setter (SetString / SetStringP), "req" PersistContext.SetRequiredString, "gas" PersistContext.GetAndSetString (same stored value; not part of the schema text)
 	Typ  string // "" = string; i64 i32 bool f64 time (store_c03t.go): the field is persisted / read with the typed setters and the value strings of cases and facts are the bytes of its storage encoding (= the index key)
+	Pfx  []string // path prefix (store_c06_pfx.go): the field lives in the nested bucket <entity bucket>/<Pfx...>/<Name>, its symbol is declared with that prefix; not part of the schema text (paths are not part of the model: facts() projects the field as an ordinary field fact)
 }
 
 func (f sField) symName() string {
@@ -241,6 +242,10 @@ func (st *gStrategy) FillEntity(e *gEnt, bucket *boltz.TypedBucket) {
 			e.F[f.Name] = c03tFieldGet(bucket, f)
 			continue
 		}
+		if len(f.Pfx) > 0 {
+			e.F[f.Name] = c06pfxFieldGet(bucket, f)
+			continue
+		}
 		e.F[f.Name] = bucket.GetString(f.Name)
 	}
 }
@@ -254,6 +259,10 @@ func (st *gStrategy) PersistEntity(e *gEnt, ctx *boltz.PersistContext) {
 	c04ApplyOverrides(st.def, ctx) // Api attributes; no-op for stores without them
 	for _, f := range st.def.Fields {
 		v := e.F[f.Name]
+		if len(f.Pfx) > 0 {
+			c06pfxFieldSet(ctx, f, v)
+			continue
+		}
 		if f.Typ != "" {
 			c03tFieldSet(ctx, f, v)
 			continue
@@ -465,9 +474,9 @@ func openHarnessDb(w *wiring, dir string) (*harnessDb, error) {
 			}
 			for _, f := range def.Fields {
 				if t, ok := fkTarget[def.Name+"."+f.Name]; ok {
-					gs.symbols[f.Name] = gs.AddFkSymbolWithKey(f.symName(), f.Name, h.stores[t])
+					gs.symbols[f.Name] = gs.AddFkSymbolWithKey(f.symName(), f.Name, h.stores[t], f.Pfx...)
 				} else {
-					gs.symbols[f.Name] = gs.AddSymbolWithKey(f.symName(), c03tNodeType(f), f.Name)
+					gs.symbols[f.Name] = gs.AddSymbolWithKey(f.symName(), c03tNodeType(f), f.Name, f.Pfx...)
 				}
 				if f.Sym != "" {
 					h.symToKey[f.Sym] = f.Name
@@ -1079,9 +1088,17 @@ func (h *harnessDb) facts() []string {
 					if ignoredFields[fname] {
 						return nil
 					}
+					if c06pfxIsBucket(h.w, name, []string{fname}) { // a nested bucket that holds fields declared with a path prefix
+						c06pfxFacts(h, &out, "F:"+name+":"+ih, name, []string{fname}, sub)
+						return nil
+					}
 					if childNames[fname] {
 						out = append(out, fmt.Sprintf("C:%s:%s:%s", name, ih, fname))
 						_ = sub.ForEach(func(ck, cv []byte) error {
+							if cs := sub.Bucket(ck); cs != nil && c06pfxIsBucket(h.w, fname, []string{string(ck)}) {
+								c06pfxFacts(h, &out, "CF:"+name+":"+ih+":"+fname, fname, []string{string(ck)}, cs)
+								return nil
+							}
 							if cv != nil || (h.factsTx != nil && sub.Bucket(ck) == nil) {
 								out = append(out, fmt.Sprintf("CF:%s:%s:%s:%s:%s", name, ih, fname, ck, c03tFieldValStr(typed, fname+"."+string(ck), cv)))
 							} else if cs := sub.Bucket(ck); cs != nil && childSets[fname][string(ck)] {
